@@ -73,7 +73,7 @@ def required_class(block: str, key: str, idx: int) -> str:
 
 IMPORTS = ['Coq.NArith.NArith', 'Coq.ZArith.ZArith', 'Coq.Lists.List', 'Coq.Strings.String', 'SV.KV.KvBase', 'SV.Fmt.VmfText',
            'SV.Fmt.VmfBlocks', 'SV.Gen.VmfTemplates_gen', 'SV.Gen.VmfKeys_gen', 'SV.Gen.VmfDispSizes_gen', 'SV.Gen.VmfOrder_gen',
-           'SV.Gen.VmfProg_gen', 'SV.Fmt.VmfFields', 'SV.Gen.VmfFieldsCfg_gen', 'SV.Fmt.VmfNum', 'SV.Gen.VmfNumFmt_gen', 'SV.KV.KvSym', 'SV.Gen.KVSer_gen', 'SV.Props.C06']
+           'SV.Gen.VmfProg_gen', 'SV.Fmt.VmfFields', 'SV.Gen.VmfFieldsCfg_gen', 'SV.Fmt.VmfNum', 'SV.Gen.VmfNumFmt_gen', 'SV.Fmt.VmfGuard', 'SV.KV.KvSym', 'SV.Gen.KVSer_gen', 'SV.Props.C06']
 PRE = '''Import ListNotations. Open Scope string_scope.
 Fixpoint nl_eqb (a b : list N) : bool := match a, b with [], [] => true | x :: a', y :: b' => N.eqb x y && nl_eqb a' b' | _, _ => false end.
 Fixpoint bad_idx {A} (f : A -> bool) (n : N) (l : list A) : list N := match l with [] => [] | x :: r => (if f x then [] else [n]) ++ bad_idx f (n + 1)%N r end.
@@ -757,6 +757,10 @@ def run(ck: Ck) -> None:
         obs['output_separators_agree'] = ('(((gen_out_esc =? ESC) && (gen_out_write_comma =? COMMA) && (gen_out_read_comma =? COMMA) && '
                                           '(gen_out_write_esc =? ESC) && (gen_out_read_esc =? ESC))%N && negb gen_out_flag_when_esc && '
                                           'gen_out_flag_when_comma)%bool')
+        # optional array groups (round 3): the multiblend arrays are written exactly when the member carried by the array
+        # named "multiblend" is non-default at some vertex (and its default is falsy)
+        obs['optional_arrays_guard:multiblend'] = ('(forallb (optgroup_ok "multiblend") gen_opt_groups && '
+                                                   'Nat.eqb (List.length gen_opt_groups) 1)%bool')
         # number formats per field (round 3): every number of every written line is written by a format that keeps the
         # precision the property demands of it
         nfields = tr.get('VmfNumFmt_gen', {}).get('fields', [])
@@ -801,6 +805,8 @@ def run(ck: Ck) -> None:
     if any(k.startswith(('field:', 'text:', 'parse-error:', 'file:')) for k in keys):
         ck.explain('instance:keys_read:')
         ck.explain('tie:')
+    if any('multiblend' in k or 'alphablend' in k for k in keys):
+        ck.explain('instance:optional_arrays_guard')
     if any('isplacement' in k or 'disp' in k for k in keys):
         ck.explain('instance:disp_shape')
         ck.explain('instance:disp_arrays_complete')
